@@ -621,3 +621,9 @@ mut("C16", "r8-unpack32-bound", "formats/varint/varint.go",
     "\tif n > 4294967295 {", "\tif n > 1<<32 {", "C16-R8|formats/varint.Unpack32", comment="round-2 seed C16-b2")
 mut("C08", "r6-unpack8-second-byte-unchecked", "formats/varint/varint.go",
     "\tif len(blob) < 2 {\n\t\treturn 0, 0, ErrBufTooSmall\n\t}\n\tif blob[1] != 0x01 {", "\tif blob[1] != 0x01 {", "C08-R6|formats/varint.Unpack8 / index [1]")
+mut("C11", "r5-terminator-while-expecting", "database/query/parser.go",
+    "\t\tif !expectingMore && rootCondition {\n\t\t\tswitch firstSnippet.text {", "\t\tif rootCondition && len(conditions) > 0 {\n\t\t\tswitch firstSnippet.text {", "C11-R5|database/query.parseAndOr / success return", comment="round-2 seed C11-b1")
+mut("C11", "r6-not-printer-splits", "database/query/condition-not.go",
+    "\tkeyEnd := endOfFirstToken(next)\n\treturn next[:keyEnd] + \" not\" + next[keyEnd:]", "\tsplitted := strings.Split(next, \" \")\n\t_ = endOfFirstToken\n\treturn strings.Join(append([]string{splitted[0], \"not\"}, splitted[1:]...), \" \")", "C11-R6|database/query.(*notCond).string", comment="reverts fix 35c2a0b")
+mut("C11", "r6-not-printer-fields", "database/query/condition-not.go",
+    "\tkeyEnd := endOfFirstToken(next)\n\treturn next[:keyEnd] + \" not\" + next[keyEnd:]", "\tsplitted := strings.Fields(next)\n\t_ = endOfFirstToken\n\treturn strings.Join(append([]string{splitted[0], \"not\"}, splitted[1:]...), \" \")", "C11-R6|database/query.(*notCond).string", comment="round-2 seed C11-b2 (rebased onto fix 35c2a0b)")
